@@ -717,3 +717,140 @@ mut('C19', 'grid', """        elif isinstance(v1, bool) or isinstance(v2, bool):
             # a boolean is not a number
             return isinstance(v1, bool) and isinstance(v2, bool) and v1 == v2
 """, "", name='revert fix: booleans vs numbers')
+
+# ---- round 2: float tolerance shape ------------------------------------------------------
+_TOL = """            return (v1 == v2) or (v1 != v1 and v2 != v2) or \\
+                   abs(v1 - v2) < 0.000001"""
+mut('C19', 'grid', _TOL, """            return (v1 == v2) or (v1 != v1 and v2 != v2) or \\
+                   abs(v1 - v2) < 0.001""", name='tolerance widened to 1e-3')
+mut('C19', 'grid', _TOL, """            return (v1 == v2) or (v1 != v1 and v2 != v2)""", name='tolerance dropped')
+mut('C19', 'grid', _TOL, """            return (v1 == v2) or (v1 != v1 and v2 != v2) or \\
+                   abs(v1 - v2) < 0.000001 * max(abs(v1), abs(v2))""", name='tolerance made relative by hand')
+mut('C19', 'grid', "import numbers\n", "import numbers\nimport math\n", 'OK', name='refactor: import math')
+mut('C19', 'grid', _TOL, """            return (v2 == v1) or (v1 != v1 and v2 != v2) or \\
+                   abs(v2 - v1) <= 0.000001""", 'OK', name='refactor: operands swapped in tolerance test')
+
+# ---- round 2: escape decoding must be one pass ---------------------------------------------
+_UNESC_HEAD = """    Iterative parser for string escapes.
+    \"\"\"
+    out = ''
+"""
+mut('C08', 'zincparser', _UNESC_HEAD, """    Iterative parser for string escapes.
+    \"\"\"
+    s = re.sub(r'\\\\[uU]([0-9a-fA-F]{4})', lambda mo: six.unichr(int(mo.group(1), 16)), s)
+    out = ''
+""", name='unicode escapes decoded in a pre-pass')
+mut('C03', 'zincparser', _UNESC_HEAD, """    Iterative parser for string escapes.
+    \"\"\"
+    s = s.replace('\\\\n', '\\n')
+    out = ''
+""", name='newline escape decoded in a pre-pass')
+mut('C08', 'zincparser', _UNESC_HEAD, """    Iterative parser for string escapes.
+    \"\"\"
+    s = six.text_type(s)
+    out = ''
+""", 'OK', name='refactor: coerce subject to text before the scan')
+
+# ---- round 2: sort/reverse rebuilt instead of in place ----------------------------------------
+mut('C16', 'sortabledict', "        return self._order.sort(*args, **kwargs)", "        self._order = sorted(self._values, *args, **kwargs)", name='sort from the value dict (insertion order)')
+mut('C16', 'sortabledict', "        return self._order.sort(*args, **kwargs)", "        self._order = sorted(self._order, *args, **kwargs)", 'OK', name='refactor: sort on a copy of the current order')
+mut('C16', 'sortabledict', "        return self._order.reverse(*args, **kwargs)", "        self._order = list(reversed(self._values))", name='reverse from the value dict')
+
+# ---- round 2: column writer restructured -------------------------------------------------------
+_DUMPCOLS = """    _dump = functools.partial(dump_column, version=version)
+    _cols = list(zip(*list(cols.items())))
+    return ','.join(map(_dump, *_cols))"""
+mut('C01', 'zincdumper', _DUMPCOLS, """    return ','.join([dump_column(col, col_meta)
+                     for (col, col_meta) in cols.items()])""", name='column comprehension drops the version')
+mut('C01', 'zincdumper', _DUMPCOLS, """    return ','.join([dump_column(col, col_meta, version=version)
+                     for (col, col_meta) in cols.items()])""", 'OK', name='refactor: column comprehension keeps the version')
+
+# ---- round 2: json.dumps options ------------------------------------------------------------
+_JD = "    return json.dumps(_dump_grid_to_json(grid))"
+mut('C02', 'jsondumper', _JD, "    return json.dumps(_dump_grid_to_json(grid), sort_keys=True)", name='sorted keys lose metadata order')
+mut('C06', 'jsondumper', _JD, "    return json.dumps(_dump_grid_to_json(grid), sort_keys=True)", name='sorted keys lose metadata order')
+mut('C06', 'jsondumper', _JD, "    return str(_dump_grid_to_json(grid))", name='python repr instead of JSON')
+mut('C06', 'jsondumper', _JD, "    return json.dumps(_dump_grid_to_json(grid), separators=(',', ':'))", 'OK', name='refactor: compact separators')
+mut('C02', 'jsondumper', _JD, "    doc = _dump_grid_to_json(grid)\n    return json.dumps(doc, ensure_ascii=True)", 'OK', name='refactor: local for the grid object')
+
+# ---- round 2: header version / version locals ----------------------------------------------------
+_DG2J = """    return {
+        'meta': dump_meta(grid.metadata, version=grid.version, grid=True),
+        'cols': dump_columns(grid.column, version=grid.version),
+        'rows': dump_rows(grid),
+    }"""
+for _p in ('C02', 'C07', 'C10', 'C06'):
+    mut(_p, 'jsondumper', _DG2J, """    version = grid.version
+    return {
+        'meta': dump_meta(grid.metadata, version=version, grid=True),
+        'cols': dump_columns(grid.column, version=version),
+        'rows': dump_rows(grid),
+    }""", 'OK', name='refactor: version held in a local')
+for _p in ('C02', 'C07'):
+    mut(_p, 'jsondumper', _DG2J, """    version = grid.nearest_version
+    return {
+        'meta': dump_meta(grid.metadata, version=version, grid=True),
+        'cols': dump_columns(grid.column, version=version),
+        'rows': dump_rows(grid),
+    }""", name='header written from the nearest version')
+mut('C07', 'zincdumper', "header = 'ver:%s' % dump_str(str(grid._version), version=grid._version)",
+    "header = 'ver:%s' % dump_str(str(grid.nearest_version), version=grid._version)", name='ZINC header written from the nearest version')
+mut('C01', 'zincdumper', "header = 'ver:%s' % dump_str(str(grid._version), version=grid._version)",
+    "header = 'ver:%s' % dump_str(str(grid.nearest_version), version=grid._version)", name='ZINC header written from the nearest version')
+mut('C10', 'jsondumper', "        'cols': dump_columns(grid.column, version=grid.version),",
+    "        'cols': dump_columns(grid.column, version=grid.nearest_version),", 'OK', name='refactor: nearest version passed to a nested writer')
+
+# ---- round 2: result shaping of parser.parse -------------------------------------------------------
+_SHAPE = """    grids = list(map(_parse, grid_data))
+    if single:
+        # Most of the time, we will only want one grid.
+        if grids:
+            return grids[0]
+        else:
+            return None
+    else:
+        return grids"""
+_SHAPE_FIRST1 = """    if single:
+        if grid_data:
+            return _parse(grid_data[0])
+        else:
+            return None
+    else:
+        return list(map(_parse, grid_data))"""
+mut('C09', 'parser', _SHAPE, _SHAPE_FIRST1, name='single=True parses the first block only')
+mut('C03', 'parser', _SHAPE, _SHAPE_FIRST1, 'OK', name='(benign for well-formed input) single=True parses the first block only')
+mut('C05', 'parser', _SHAPE, _SHAPE_FIRST1, 'OK', name='(benign for well-formed input) single=True parses the first block only')
+for _p in ('C03', 'C05', 'C09'):
+    mut(_p, 'parser', _SHAPE, """    grids = [_parse(piece) for piece in grid_data]
+    if not single:
+        return grids
+    if len(grids) > 0:
+        return grids[0]
+    return None""", 'OK', name='refactor: result shaping with early returns')
+
+# ---- round 2: the filter text reaches the grammar unchanged -------------------------------------------
+mut('C11', 'grid_filter', "    return _filter_function(filter).get()", "    return _filter_function(' '.join(filter.split())).get()", name='filter text whitespace-normalised before parsing')
+mut('C11', 'grid_filter', "    return FilterAST(hs_filter.parseString(filter, parseAll=True)[0])", "    return FilterAST(hs_filter.parseString(filter.lower(), parseAll=True)[0])", name='filter text lower-cased before parsing')
+mut('C11', 'grid_filter', "    return _filter_function(filter).get()", "    text = filter\n    return _filter_function(text).get()", 'OK', name='refactor: local alias for the filter text')
+
+# ---- round 2: module-level containers on the filter path ---------------------------------------------
+_GEN_HEAD = "def _generate_filter_in_python(node, def_filter):\n"
+mut('C13', 'grid_filter', _GEN_HEAD, """_seen_nodes = []
+
+
+def _note_node(node):
+    _seen_nodes.append(node)
+    return len(_seen_nodes) - 1
+
+
+""" + _GEN_HEAD, name='append then len() on a module-level list, no lock')
+mut('C13', 'grid_filter', _GEN_HEAD, """_seen_nodes = []
+
+
+def _note_node(node):
+    with _id_function_lock:
+        _seen_nodes.append(node)
+        return len(_seen_nodes) - 1
+
+
+""" + _GEN_HEAD, 'OK', name='(benign) append then len() inside the module lock')
